@@ -323,7 +323,7 @@ func (r *Run) Finish(level string) int {
 	}
 	cv["solver_cross_check"] = map[string]interface{}{
 		"cmd": "z3-new -in (5.1.0), standalone script of path condition + assertion per query", "mode": xmode,
-		"queries": sv.XQueries, "agree": sv.XAgree, "disagree": sv.XDisagree, "unknown_second_solver": sv.XUnknown,
+		"queries": sv.XQueries, "agree": sv.XAgree, "disagree": sv.XDisagree, "unknown_second_solver": sv.XUnknown, "pruning_verdicts_seen": sv.XPruneSeen,
 		"seconds": round3(sv.XSeconds),
 	}
 	if sv.XDisagree > 0 {
